@@ -7,6 +7,7 @@ set_option linter.unusedSimpArgs false
 namespace ExprModel.Refine
 open ExprModel
 open ExprModel.Spec
+open ExprModel.Spec.SML
 
 variable {c : Cfg} {P : LProg} {ctx : Ctx}
 
@@ -44,6 +45,43 @@ theorem eval_bi_one (sc : SCfg) (m : Meta) (a b : Node) : eval sc ctx (.builtin 
   rw [raw]
   congr 1; funext coll; congr 1; funext n; congr 1; funext r; cases r <;> rfl
 
+/-- what `count` / `one` do with the closure's value -/
+def postCount : Nat → Int → Val → SM (Int ⊕ Val) :=
+  fun _ k x => do if ← asBool x then pure (.inl (k + 1)) else pure (.inl k)
+
+theorem fbCount_post (sc : SCfg) (b : Node) (coll : Val) (i : Nat) (k : Int) :
+    fbCount sc ctx b coll i k = (eval sc ((coll, (i : Int)) :: ctx) b >>= postCount i k) := rfl
+
+theorem evalLoc_bi_count (sc : SCfg) (m : Meta) (a b : Node) : evalLoc sc ctx (.builtin m "count" [a, b]) = (do
+    let coll ← evalLoc sc ctx a
+    let n ← raisedAt m.loc (SM.lift (lengthV coll))
+    let r ← loopIdxL (fbLoc sc ctx b m.loc postCount coll) n.toNat 0 (0 : Int)
+    raisedAt m.loc (epiOf (fun k => pure (.int .int k)) r)) := by
+  have raw : evalLoc sc ctx (.builtin m "count" [a, b]) = (do
+      let coll ← evalLoc sc ctx a
+      let n ← raisedAt m.loc (SM.lift (lengthV coll))
+      let r ← loopIdxL (fbLoc sc ctx b m.loc postCount coll) n.toNat 0 (0 : Int)
+      raisedAt m.loc (match r with
+        | .inl k => pure (.int .int k)
+        | .inr v => pure v)) := rfl
+  rw [raw]
+  congr 1; funext coll; congr 1; funext n; congr 1; funext r; congr 1; cases r <;> rfl
+
+theorem evalLoc_bi_one (sc : SCfg) (m : Meta) (a b : Node) : evalLoc sc ctx (.builtin m "one" [a, b]) = (do
+    let coll ← evalLoc sc ctx a
+    let n ← raisedAt m.loc (SM.lift (lengthV coll))
+    let r ← loopIdxL (fbLoc sc ctx b m.loc postCount coll) n.toNat 0 (0 : Int)
+    raisedAt m.loc (epiOf (fun k => pure (.bool (k == 1))) r)) := by
+  have raw : evalLoc sc ctx (.builtin m "one" [a, b]) = (do
+      let coll ← evalLoc sc ctx a
+      let n ← raisedAt m.loc (SM.lift (lengthV coll))
+      let r ← loopIdxL (fbLoc sc ctx b m.loc postCount coll) n.toNat 0 (0 : Int)
+      raisedAt m.loc (match r with
+        | .inl k => pure (.bool (k == 1))
+        | .inr v => pure v)) := rfl
+  rw [raw]
+  congr 1; funext coll; congr 1; funext n; congr 1; funext r; congr 1; cases r <;> rfl
+
 /-- the counter in the loop's scope -/
 def CountIs (sc : Scope) (j : Nat) (k : Int) : Prop :=
   lookupKv "count" sc = some (.int .int k) ∧ 0 ≤ k ∧ k ≤ j
@@ -79,7 +117,7 @@ theorem hbody_count {b : Node} {cb EPI : List LInstr} {l : Loc} {ci cs car c0 cc
     (hle : CodeAt P k0 (loopCode l ci cs car c0 (cb ++ emitCond l [li l .inc cc]) ++ EPI)) (hN : (N : Int) < 2 ^ 63)
     (i : Nat) (acc : Int) (σ : SState) (res : R (Int ⊕ Val)) (σ1 : SState) (sc : Scope) (hiN : i < N)
     (hbase : Base sc coll N i) (hex : CountIs sc i acc) (hfb : fbCount (specOf c) ctx b coll i acc σ = (res, σ1))
-    (hbr : RBlame P l res) :
+    (hBL : BAt P.blame (fbLoc (specOf c) ctx b l postCount coll i acc) σ) :
     BodyPost c P (fun _ => []) CountIs coll N i (k0 + 24 + lsize (cb ++ emitCond l [li l .inc cc]))
       (k0 + 32 + lsize (cb ++ emitCond l [li l .inc cc])) st scs
       (vm (k0 + 24) ([] ++ st) (sc :: scs) σ c.budget) res σ1 := by
@@ -91,9 +129,11 @@ theorem hbody_count {b : Node} {cb EPI : List LInstr} {l : Loc} {ci cs car c0 cc
   have hjmp := hcond.right
   unfold fbCount at hfb
   unfold BodyPost
+  unfold fbLoc at hBL
   rcases SM.bind_cases hfb with ⟨e, hxe, rfl⟩ | ⟨x, σ2, hxv, hrest⟩
-  · exact hb _ _ st (sc :: scs) σ _ _ hbody.left (hbase.scopesOK ctx scs) hxe
-  · have r1 : Reach c P _ _ := hb _ _ st (sc :: scs) σ _ _ hbody.left (hbase.scopesOK ctx scs) hxv
+  · exact hb _ _ st (sc :: scs) σ _ _ hbody.left (hbase.scopesOK ctx scs) hxe hBL.left
+  · have r1 : Reach c P _ _ := hb _ _ st (sc :: scs) σ _ _ hbody.left (hbase.scopesOK ctx scs) hxv hBL.left
+    have hbr : RBlame P l res := (hBL.right (evalLoc_of_ok hxv)).raised hrest
     by_cases hbv : ∃ t, x = .bool t
     · obtain ⟨t, rfl⟩ := hbv
       rw [asBool_bool, SM.bind_apply, SM.pure_apply] at hrest
@@ -126,12 +166,12 @@ theorem equalV_int (a b : Int) : equalV (.int .int a) (.int .int b) = (a == b) :
 
 theorem sim_count {m : Meta} {a b : Node} {ca cb : List LInstr} {ci cs car c0 cc : Nat}
     (ha : Sim c P ctx a ca) (hb : ∀ ctx', Sim c P ctx' b cb) (hsmall : SmallColl c a) (hK : LoopK P.consts ci cs car c0)
-    (hcc : P.consts[cc]? = some (.str "count")) (hbl : BlameOK c P (.builtin m "count" [a, b])) :
+    (hcc : P.consts[cc]? = some (.str "count")) :
     Sim c P ctx (.builtin m "count" [a, b])
       (ca ++ [li m.loc .begin_, li m.loc .push c0, li m.loc .store cc] ++
         emitLoop m.loc ci cs car c0 (cb ++ emitCond m.loc [li m.loc .inc cc]) ++ [li m.loc .load cc, li m.loc .end_]) := by
   refine sim_loop m.loc (fbCount (specOf c) ctx b) (fun _ k => pure (.int .int k)) (0 : Int) (fun _ => [])
-    CountIs (eval_bi_count _ m a b) ha hsmall hK hbl rfl (fun sc j acc k v hk h => h.set hk) ?_
+    CountIs (fun _ => postCount) (fun coll i k => fbCount_post _ b coll i k) (eval_bi_count _ m a b) (evalLoc_bi_count _ m a b) ha hsmall hK rfl (fun sc j acc k v hk h => h.set hk) ?_
     (fun coll N k0 st scs hle hN i acc σ res σ1 sc hiN hbase hex hfb hbr =>
       hbody_count hb hcc coll N k0 st scs hle hN i acc σ res σ1 sc hiN hbase hex hfb hbr) ?_
     (fun k st scs σ sc' v h hex => by obtain ⟨_, _, _, _, h⟩ := hex; exact (fbCount_no_exit h).elim)
@@ -147,14 +187,13 @@ theorem sim_count {m : Meta} {a b : Node} {ca cb : List LInstr} {ci cs car c0 cc
 
 theorem sim_one {m : Meta} {a b : Node} {ca cb : List LInstr} {ci cs car c0 cc c1 : Nat}
     (ha : Sim c P ctx a ca) (hb : ∀ ctx', Sim c P ctx' b cb) (hsmall : SmallColl c a) (hK : LoopK P.consts ci cs car c0)
-    (hcc : P.consts[cc]? = some (.str "count")) (hc1 : P.consts[c1]? = some (.int .int 1))
-    (hbl : BlameOK c P (.builtin m "one" [a, b])) :
+    (hcc : P.consts[cc]? = some (.str "count")) (hc1 : P.consts[c1]? = some (.int .int 1)) :
     Sim c P ctx (.builtin m "one" [a, b])
       (ca ++ [li m.loc .begin_, li m.loc .push c0, li m.loc .store cc] ++
         emitLoop m.loc ci cs car c0 (cb ++ emitCond m.loc [li m.loc .inc cc]) ++
         [li m.loc .load cc, li m.loc .push c1, li m.loc .equal, li m.loc .end_]) := by
   refine sim_loop m.loc (fbCount (specOf c) ctx b) (fun _ k => pure (.bool (k == 1))) (0 : Int) (fun _ => [])
-    CountIs (eval_bi_one _ m a b) ha hsmall hK hbl rfl (fun sc j acc k v hk h => h.set hk) ?_
+    CountIs (fun _ => postCount) (fun coll i k => fbCount_post _ b coll i k) (eval_bi_one _ m a b) (evalLoc_bi_one _ m a b) ha hsmall hK rfl (fun sc j acc k v hk h => h.set hk) ?_
     (fun coll N k0 st scs hle hN i acc σ res σ1 sc hiN hbase hex hfb hbr =>
       hbody_count hb hcc coll N k0 st scs hle hN i acc σ res σ1 sc hiN hbase hex hfb hbr) ?_
     (fun k st scs σ sc' v h hex => by obtain ⟨_, _, _, _, h⟩ := hex; exact (fbCount_no_exit h).elim)
